@@ -41,6 +41,23 @@ def _expected_vt(variant: int) -> t.Optional[bytes]:
     return rpce.build_vt([(rpce.VT_BITMASK, b"\x01\x00\x00\x00"), pc])
 
 
+def run_seq_case(case) -> dict:
+    """["seq", flavour, [sig sizes...], stub_len, vt]: several authenticated connections one after the other in the same process,
+    each with a security context of a different signature size; every request must be framed for *its* context."""
+    _, fl, sigs, n, vtv = case
+    res = None
+    for k, sig in enumerate(sigs):
+        res = run_request_case(["req", fl, n + k, vtv, sig, (k + 1) % 2, 1])
+        if res["viol"]:
+            v = res["viol"]
+            res["viol"] = {"sig": v["sig"].replace("C13/request-framing/", "C13/request-framing-sequence/"),
+                           "detail": f"connection #{k + 1} of the sequence {sigs}: " + v["detail"]}
+            break
+    res["key"] = common.key_hash(case)
+    res["probes"] = dict(res.get("probes") or {}, seq_connections=len(sigs))
+    return res
+
+
 def run_request_case(case) -> dict:
     """case: ["req", flavour, stub_len, vt variant, sig, hs, auth(1/0)]"""
     import dpapi_ng._rpc as rpc
@@ -282,7 +299,7 @@ class C13(common.Check):
                   "DC": "model (RefDC)", "transport": "simulated"}
     assumptions = ["the quantifier is a parameter grid; what the simulation contributes is the second party (independent receiver, recording context)",
                    "alloc_hint is recorded, not judged"]
-    required_fired = tuple(f"reply_pad_{k}" for k in range(16)) + ("hs_1_auth_1", "hs_0_auth_1", "hs_0_auth_0")
+    required_fired = tuple(f"reply_pad_{k}" for k in range(16)) + ("hs_1_auth_1", "hs_0_auth_1", "hs_0_auth_0", "seq_connections")
 
     def exhaustive(self, tier):
         return True
@@ -303,6 +320,12 @@ class C13(common.Check):
                     if vtv < 2:
                         out.append(["req", fl, n, vtv, 16, 0, 0])
         for fl in ("sync", "async"):
+            for a in (16, 28, 60, 76):
+                for b_ in (16, 28, 60, 76):
+                    if a != b_:
+                        for n in (0, 5, 16, 33):
+                            out.append(["seq", fl, [a, b_, a], n, 1])
+        for fl in ("sync", "async"):
             for kl in range(5, 13):
                 for dlen in range(0, 8 if tier == "thorough" else 4):
                     for flen in (0, 1, 2, 3):
@@ -315,6 +338,8 @@ class C13(common.Check):
     def run_case(self, case):
         if case[0] == "req":
             return run_request_case(case)
+        if case[0] == "seq":
+            return run_seq_case(case)
         return run_reply_case(case)
 
     def shrink(self, case):
@@ -328,6 +353,9 @@ class C13(common.Check):
                 yield ["req", fl, n, vtv, 16, hs, auth]
             if fl == "async":
                 yield ["req", "sync", n, vtv, sig, hs, auth]
+        elif case[0] == "seq":
+            if len(case[2]) > 2:
+                yield ["seq", case[1], case[2][:2], case[3], case[4]]
         else:
             _, fl, kl, dlen, flen, pad_mode, sig, member = case
             if fl == "async":
@@ -340,6 +368,8 @@ class C13(common.Check):
     def sample_repr(self, case, res):
         if case[0] == "req":
             return dict(zip(("kind", "flavour", "stub_len", "vt_variant", "sig_size", "header_sign", "authenticated"), case))
+        if case[0] == "seq":
+            return dict(zip(("kind", "flavour", "sig_sizes_of_consecutive_connections", "stub_len", "vt_variant"), case))
         return dict(zip(("kind", "flavour", "dh_key_length", "domain_len", "forest_len", "pad_mode", "sig_size", "member"), case))
 
 
